@@ -25,7 +25,8 @@ Cases == ndJsonDeserialize(IOEnv.VERIF_CASES)
 
 Message(c) == EncO(StructT(c.w), ExpS(c.w, c.val), c.ord) \o c.trail
 
-SubstAlphabet == {0, 1, 127, 128, 255}
+\* every legal type code, the gaps between them, the first illegal codes, extreme bytes
+SubstAlphabet == {0, 1, 2, 3, 4, 5, 6, 7, 8, 9, 10, 11, 12, 13, 14, 15, 16, 17, 127, 128, 254, 255}
 LenAlphabet == << <<255, 255, 255, 255>>, <<127, 255, 255, 255>>, <<0, 0, 0, 0>>, <<0, 1, 0, 0>>, <<128, 0, 0, 0>> >>
 
 Mutants(m, mut) ==
